@@ -316,6 +316,9 @@ func (n *Nodis) ZRem(key string, members ...string) int64 {
 			return nil
 		}
 		v = meta.value.(*zset.SortedSet).ZRem(members...)
+		if meta.value.(*zset.SortedSet).ZCard() == 0 {
+			tx.delKey(key)
+		}
 		if v > 0 {
 			n.signalModifiedKey(key, meta)
 			n.notify(func() []patch.Op {
@@ -335,6 +338,9 @@ func (n *Nodis) ZRemRangeByRank(key string, start int64, stop int64) int64 {
 			return nil
 		}
 		v = meta.value.(*zset.SortedSet).ZRemRangeByRank(start, stop)
+		if meta.value.(*zset.SortedSet).ZCard() == 0 {
+			tx.delKey(key)
+		}
 		if v > 0 {
 			n.signalModifiedKey(key, meta)
 			n.notify(func() []patch.Op {
@@ -354,6 +360,9 @@ func (n *Nodis) ZRemRangeByScore(key string, min float64, max float64, mode int)
 			return nil
 		}
 		v = meta.value.(*zset.SortedSet).ZRemRangeByScore(min, max, mode)
+		if meta.value.(*zset.SortedSet).ZCard() == 0 {
+			tx.delKey(key)
+		}
 		if v > 0 {
 			n.signalModifiedKey(key, meta)
 			n.notify(func() []patch.Op {
